@@ -29,6 +29,7 @@ from pyvc import heap as H, core
 from pyvc.heap import PENDING, RESULT, EXC, CANCELLED, st
 
 LEVEL = "other"
+STANDIN_ALWAYS_THOROUGH = True      # its large bound takes seconds: used at both tiers
 EXPLANATION = ("MIXED. BaseIOStream._signal_closed proved from every combination of states of the read / write (<= 2) / connect / ssl-connect "
                "futures, close callback and error: never raises, every future done afterwards, pending ones fail with StreamClosedError carrying the "
                "real error (ssl-connect: the error itself), done ones untouched, slots cleared, close callback scheduled exactly once and cleared "
